@@ -98,6 +98,44 @@ LocalIns(r, cn, i, k) ==
      /\ dels' = dels
      /\ hist' = Append(hist, [a |-> "ins", r |-> r, p |-> PathOf(R, cn, 4), i |-> i, n |-> 1, k |-> k])
 
+(* insert n primitive units at visible index i as ONE operation (one block: unit j+1 has origin unit j); h = history record *)
+InsNWith(r, cn, i, n, h) ==
+  LET R   == S[r]
+      c   == ContKey(cn, "")
+      s   == Lst(R.lst, c)
+      v   == Visible(E, R, c)
+      lp  == IF i = 0 THEN 0 ELSE IndexOf(s, v[i])
+      at  == SkipDead(s, R.dead, lp)
+      id  == NextId(r)
+      o   == IF at = 0 THEN None ELSE s[at]
+      ro  == IF at = Len(s) THEN None ELSE s[at + 1]
+      new == [x \in {<<r, id[2] + j>> : j \in 0..(n - 1)} |->
+                Elem(IF x[2] = id[2] THEN o ELSE <<r, x[2] - 1>>, ro, cn, "", IF cn[1] = "t" THEN "str" ELSE "any", "")]
+      E2  == AddElems(new)
+      R2  == ApplyAlg(E2, R, DOMAIN new, {})
+  IN /\ E' = E2 /\ XD' = XD
+     /\ Emit(r, R2, DOMAIN new, {})
+     /\ dels' = dels
+     /\ hist' = Append(hist, h)
+LocalInsN(r, cn, i, n) ==
+  InsNWith(r, cn, i, n, [a |-> "ins", r |-> r, p |-> PathOf(S[r], cn, 4), i |-> i, n |-> n, k |-> "u"])
+(* insert_with_attributes: the same abstract step (the marks it creates are not countable, see LocalFmt) *)
+LocalInsA(r, cn, i, n, key, val) ==
+  InsNWith(r, cn, i, n, [a |-> "insa", r |-> r, p |-> PathOf(S[r], cn, 4), i |-> i, n |-> n, key |-> key, v |-> val])
+
+(* format n visible units from index i with key := val.  Formatting marks are not countable: the abstract lists  *)
+(* (visible elements, their order, the indexes of later operations) do not change; the step only produces an    *)
+(* update (possibly an empty one, as in the library when nothing changes).  What the marks mean is specified in *)
+(* Rich.tla and checked on the recorded structure by the trace specification.                                   *)
+LocalFmt(r, cn, i, n, key, val) ==
+  LET R == S[r]
+      v == Visible(E, R, ContKey(cn, ""))
+  IN /\ n >= 1 /\ i + n <= Len(v)
+     /\ E' = E /\ XD' = XD
+     /\ Emit(r, R, {}, {})
+     /\ dels' = dels
+     /\ hist' = Append(hist, [a |-> "fmt", r |-> r, p |-> PathOf(R, cn, 4), i |-> i, n |-> n, key |-> key, v |-> val])
+
 LocalDelN(r, cn, i, n) ==
   LET R  == S[r]
       c  == ContKey(cn, "")
@@ -179,7 +217,10 @@ KindsAt(cn) == IF cn[2] = None /\ cn[1] # "t" THEN Kinds ELSE {"u"}
    exchanges among authors and the whole observer phase stay free *)
 ScriptStep ==
   LET st == Script[ops + 1] cn == <<st.c, None>> IN
-    CASE st.a = "ins" -> /\ st.i <= Len(Visible(E, S[st.r], ContKey(cn, ""))) /\ LocalIns(st.r, cn, st.i, st.k)
+    CASE st.a = "ins" /\ st.n > 1 -> /\ st.i <= Len(Visible(E, S[st.r], ContKey(cn, ""))) /\ LocalInsN(st.r, cn, st.i, st.n)
+      [] st.a = "ins" /\ st.n <= 1 -> /\ st.i <= Len(Visible(E, S[st.r], ContKey(cn, ""))) /\ LocalIns(st.r, cn, st.i, st.k)
+      [] st.a = "fmt" -> LocalFmt(st.r, cn, st.i, st.n, st.key, st.v)
+      [] st.a = "insa" -> /\ st.i <= Len(Visible(E, S[st.r], ContKey(cn, ""))) /\ LocalInsA(st.r, cn, st.i, st.n, st.key, st.v)
       [] st.a = "del" -> LocalDelN(st.r, cn, st.i, st.n)
       [] st.a = "set" -> MapSet(st.r, cn, st.key, st.k)
       [] st.a = "rem" -> MapRem(st.r, cn, st.key)
